@@ -78,6 +78,9 @@ def run(chk):
             bad("clamp bounds", f"clamp bounds are (`{U(lo) if lo is not None else None}`, `{U(hi) if hi is not None else None}`), expected the min/max of the storage range of {qt}.dtype",
                 "elements beyond the grid: qint8 values below -127.5*scale do not reach the end point -128 (or saturate at a bound of another dtype)")
         rest = rest[1:]
+        # NaN -> 0 commutes with rounding (round(NaN) is NaN, round(0) is 0): a sanitiser applied after the rounding is the same pipeline
+        if len(rest) >= 2 and rest[0][0] == "nan_to_num" and rest[1][0] == "round":
+            rest = [rest[1], rest[0]] + list(rest[2:])
         rounds = [s for s in rest if s[0] == "round"]
         if fp_known:
             if fp and rounds:
@@ -114,7 +117,7 @@ def run(chk):
             bad("extra arithmetic", f"stages {names}: unexpected `{extra or names}` between the division and the clamp", "any input: codes are offset or rescaled")
             continue
         num, den, mode = rest[0][1], rest[0][2], rest[0][3]
-        if mode is not None:
+        if mode is not None and not (isinstance(mode, ast.Constant) and mode.value is None):
             bad("division rounding mode", f"division uses rounding_mode={U(mode)}", "any fractional quotient")
         if U(num) != base or U(den) != scale:
             if U(num) == scale and U(den) == base:
